@@ -1,0 +1,34 @@
+//go:build verif
+
+package region
+
+// Contracts for the deductive verifier in /verif (gowp). This file contains comments only; the
+// build tag `verif` adds no code. Syntax: /verif/DESIGN.md section 2.2.
+
+//@ func region.findCommaFromEnd
+//@   requires exists(k, offset < k && k < len(b) && b[k] == ',')
+//@   requires offset >= -1
+//@   modifies nothing
+//@   ensures[C16] offset < r0 && r0 < len(b) && b[r0] == ','
+//@   ensures[C16] forall(k, r0 < k && k < len(b), b[k] != ',')
+//@   panics never[C16]
+//@   loop 1 invariant offset <= i && i <= len(b)-1
+//@   loop 1 invariant forall(k, i < k && k < len(b), b[k] != ',')
+//@   loop 1 decreases i - offset
+
+//@ func region.Compare
+//@   requires wfName(a) && wfName(b)
+//@   ensures[C16] (r0 < 0) == cmp3lt(a, b)
+//@   ensures[C16] (r0 > 0) == cmp3lt(b, a)
+//@   ensures[C16] (r0 == 0) == cmp3eq(a, b)
+//@   panics never[C16]
+//@   loop 1 invariant 0 <= i && i <= length
+//@   loop 1 invariant forall(k, 0 <= k && k < i, a[k] == b[k] && a[k] != ',')
+//@   loop 1 decreases length - i
+//@   loop 1 exit-assert i < length && i == fcomma(a) && i == fcomma(b)
+//@   loop 2 invariant fcomma(a)+1 <= i && i <= firstComma
+//@   loop 2 invariant forall(k, fcomma(a)+1 <= k && k < i, a[k] == b[k])
+//@   loop 2 decreases firstComma - i
+//@   loop 3 invariant aComma == bComma && aComma <= i && i <= length
+//@   loop 3 invariant forall(k, fcomma(a)+1 <= k && k < i, a[k] == b[k])
+//@   loop 3 decreases length - i
